@@ -12,6 +12,7 @@
  */
 
 #include "cppConstType.h"
+#include "cppPointerType.h"
 
 /**
  *
@@ -191,6 +192,29 @@ get_sizeof() const {
  */
 void CPPConstType::
 output(std::ostream &out, int indent_level, CPPScope *scope, bool complete) const {
+  // A const pointer that (directly or through further pointers) points to a
+  // function or an array needs its qualifier inside the parenthesized
+  // declarator, as in int (*const)(void) or int (*const)[4]; appending it
+  // would qualify the function or array instead.
+  if (_wrapped_around->as_pointer_type() != nullptr) {
+    CPPType *target = _wrapped_around;
+    while (true) {
+      if (target->as_pointer_type() != nullptr) {
+        target = target->as_pointer_type()->_pointing_at;
+      } else if (target->as_const_type() != nullptr) {
+        target = target->as_const_type()->_wrapped_around;
+      } else {
+        break;
+      }
+    }
+    if (target->as_function_type() != nullptr ||
+        target->as_array_type() != nullptr) {
+      _wrapped_around->output_instance(out, indent_level, scope, complete,
+                                       "const", "");
+      return;
+    }
+  }
+
   _wrapped_around->output(out, indent_level, scope, complete);
   out << " const";
 }
